@@ -13,7 +13,11 @@ import (
 type replayFile struct {
 	Values  map[string]string `json:"values"`
 	Choices map[string]int    `json:"choices"`
+	Tier    string            `json:"tier"`
 }
+
+// Thorough reports whether the thorough tier's bounds apply.
+func Thorough() bool { return replay.Tier == "thorough" }
 
 var (
 	replay    replayFile
